@@ -97,6 +97,17 @@ pub fn run_poslaw(t: &mut Toks) -> Option<String> {
         if copy(&[sv.clone(), V::Number(f), V::Number(lx)]) != Ok(xv.clone()) { return Some("viol copy-find".into()); }
         if f < OFF { return Some("viol find-present".into()); }
     } else if f != OFF - 1.0 { return Some("viol find-absent".into()); }
+    // case functions: same_text(a, b) iff lowercase(a) = lowercase(b); uppercase/lowercase are what str::to_*case says
+    {
+        use slac::stdlib::string::{lowercase, same_text, uppercase};
+        let up = uppercase(&[sv.clone()]); let lo = lowercase(&[sv.clone()]);
+        if up != Ok(V::String(s.to_uppercase())) || lo != Ok(V::String(s.to_lowercase())) { return Some("viol case-mapping".into()); }
+        let (upv, lov) = (V::String(s.to_uppercase()), V::String(s.to_lowercase()));
+        for other in [upv, lov, xv.clone()] {
+            let expect = match (&lowercase(&[other.clone()]), &lo) { (Ok(a), Ok(b)) => same_val(a, b), _ => false };
+            if same_text(&[sv.clone(), other.clone()]) != Ok(V::Boolean(expect)) { return Some("viol same_text".into()); }
+        }
+    }
     // arrays: always from 0, failed find = -1
     let arr: Vec<V> = chars.iter().map(|c| V::String(c.to_string())).collect();
     for (i, v) in arr.iter().enumerate() { if at(&[V::Array(arr.clone()), V::Number(i as f64)]).as_ref() != Ok(v) { return Some("viol at-array".into()); } }
